@@ -641,6 +641,35 @@ fn scripts_case(ctx: &Ctx, rng: &mut Rng, corpus: bool) -> Case {
         ops.push(sop("SEVALSHA", 1, Some(&keys[1])));
         ops.push(sop("SEXISTS", 2, None));
         ops.push(sop("SEVALSHA", 3, Some(&keys[0])));
+        // EVERY shard has used a script (by EVALSHA and by EVAL) before SCRIPT FLUSH and uses it again
+        // afterwards: whatever a shard remembers about a script on its own (a private copy, an
+        // "already published" memo) must not outlive the flush, which only shard 0 executes.
+        // `keys[..4]` live on pairwise different shards.
+        let homes: Vec<&Vec<u8>> = keys.iter().take(4).collect();
+        ops.push(sop("SLOAD", 4, None));
+        for k in &homes {
+            ops.push(Op::kv("SET", k, b"v2"));
+            ops.push(sop("SEVALSHA", 4, Some(k)));
+            ops.push(sop("SEVAL", 5, Some(k)));
+        }
+        ops.push(sop("SFLUSH", 0, None));
+        ops.push(sop("SEXISTS", 4, None));
+        ops.push(sop("SEXISTS", 5, None));
+        for k in &homes {
+            // flushed: NOSCRIPT on every shard
+            ops.push(sop("SEVALSHA", 4, Some(k)));
+            ops.push(sop("SEVALSHA", 5, Some(k)));
+            ops.push(sop("SEXISTS", 4, None));
+        }
+        for (j, k) in homes.iter().enumerate() {
+            // EVAL of the SAME script on the SAME shard again re-introduces it for everybody:
+            // flush in between so that each shard is the (re-)introducer once
+            ops.push(sop("SEVAL", 5, Some(k)));
+            ops.push(sop("SEXISTS", 5, None));
+            ops.push(sop("SEVALSHA", 5, Some(homes[(j + 1) % homes.len()])));
+            ops.push(sop("SFLUSH", 0, None));
+            ops.push(sop("SEVALSHA", 5, Some(k)));
+        }
     } else {
         for _ in 0..rng.range(8, 30) {
             let k = keys[rng.below(keys.len() as u64) as usize].clone();
@@ -658,6 +687,52 @@ fn scripts_case(ctx: &Ctx, rng: &mut Rng, corpus: bool) -> Case {
         }
     }
     Case { n, class: "scripts-global", ops }
+}
+
+/// LONG batches with REPEATED keys through `fast_batch_set_pipeline` / `fast_batch_get_pipeline` (what the
+/// connection's batch collectors hand over for a pipelined run of plain SETs / GETs): the call groups its
+/// items per shard; the items of one shard must keep their send order — a key written several times in
+/// one batch ends with the LAST value — and every reply must come back at the index of its item.  Lengths
+/// around every small-size cut-off of a grouping / sorting routine (≤ 20, 21 …, 32/33, 64/65, hundreds).
+fn batch_order_case(ctx: &Ctx, rng: &mut Rng, fixed: Option<(usize, usize, usize)>) -> Case {
+    let (n, len, nk) = match fixed {
+        Some(x) => x,
+        None => (*rng.pick(&[2usize, 3, 4, 8, 16]), *rng.pick(&[2usize, 7, 19, 20, 21, 22, 31, 33, 48, 64, 65, 100, 130, 257]), rng.range(1, 9) as usize),
+    };
+    let mut cand: Vec<Vec<u8>> = pool().into_iter().filter(|k| ctx.gen(k, n) == h_bytes(k, n)).collect();
+    if fixed.is_none() {
+        rng.shuffle(&mut cand);
+    }
+    let keys: Vec<Vec<u8>> = cand.into_iter().take(nk).collect();
+    let mut ops = Vec::new();
+    let mut serial = 0u64;
+    let rounds = if fixed.is_some() { 2 } else { rng.range(1, 3) };
+    for round in 0..rounds {
+        // the batch: key i is drawn at random (so that the shard sequence is not sorted and every key
+        // recurs), every value is distinct
+        let mut ks = Vec::new();
+        let mut vs = Vec::new();
+        for i in 0..len {
+            let k = if fixed.is_some() { keys[(i * 7 + i / 3 + round as usize) % keys.len()].clone() } else { keys[rng.below(keys.len() as u64) as usize].clone() };
+            ks.push(k);
+            vs.push(format!("w{}", serial).into_bytes());
+            serial += 1;
+        }
+        if round == 1 {
+            // values written through another path first: the batch must overwrite them
+            for k in &keys {
+                ops.push(Op::kv("SET", k, b"generic"));
+            }
+        }
+        ops.push(Op::new("BSET", ks.clone(), vs));
+        // read back through every path; the batched GET names the keys in the batch's own (repeating) order
+        ops.push(Op::new("BGET", ks.clone(), vec![]));
+        for k in &keys {
+            ops.push(Op::k(*rng.pick(&["GET", "FGET", "PGET"]), k));
+        }
+        ops.push(Op::new("MGET", keys.clone(), vec![]));
+    }
+    Case { n, class: "mixed-consistent", ops }
 }
 
 /// is the script cache shared by all shards?  EVAL on a key of one shard, EVALSHA on a key of another
@@ -942,6 +1017,10 @@ fn corpus(ctx: &Ctx) -> Vec<Case> {
     cs.push(keys_case(&mut Rng::new(0xC03), true));
     // the script cache: introduced through one shard, used through another
     cs.push(scripts_case(ctx, &mut Rng::new(0xC03), true));
+    // long batches with repeated keys (send order inside one shard's share of a batch)
+    for f in [(2usize, 48usize, 6usize), (4, 33, 5), (3, 21, 4), (16, 100, 8), (4, 20, 3), (8, 257, 7)] {
+        cs.push(batch_order_case(ctx, &mut Rng::new(0xB0), Some(f)));
+    }
     // RANDOMKEY looked at shard 0 only before fix 4d9bd05: one key that does not live there
     let k = p.iter().find(|k| ctx.gen(k, 4) != 0).unwrap();
     cs.push(Case {
@@ -1658,6 +1737,10 @@ pub fn run(a: &Args) {
             for salt in 0..3u64 {
                 crate::c03srv::run_conn(&mut out, &mut pend, &ctx, &mut Rng::new(0xC0 + salt), n, &frames).await;
             }
+            // … and pipelines made for the GET/SET fast path and the batch collectors (every shape, twice)
+            for salt in 0..12u64 {
+                crate::c03srv::run_conn_fast(&mut out, &mut pend, &ctx, &mut Rng::new(0xFA00 + salt * 16 + n as u64), n, Some((salt % 6) as usize)).await;
+            }
         }
         for n in [4usize] {
             for (label, steps) in crate::c03m7::after_deadline(&ctx, n) {
@@ -1692,6 +1775,9 @@ pub fn run(a: &Args) {
                 keys_case(&mut r, false)
             } else if r.chance(1, 12) {
                 scripts_case(&ctx, &mut r, false)
+            } else if r.chance(1, 14) {
+                out.count("class:batch-order");
+                batch_order_case(&ctx, &mut r, None)
             } else {
                 random_case(&ctx, &mut r)
             };
@@ -1700,6 +1786,10 @@ pub fn run(a: &Args) {
                 let n = *r.pick(&[2usize, 3, 4, 8, 16]);
                 let frames = crate::c03srv::random_pipeline(&ctx, &mut r, n);
                 crate::c03srv::run_conn(&mut out, &mut pend, &ctx, &mut r, n, &frames).await;
+            }
+            if r.chance(1, 8) {
+                let n = *r.pick(&[2usize, 3, 4, 8, 16]);
+                crate::c03srv::run_conn_fast(&mut out, &mut pend, &ctx, &mut r, n, None).await;
             }
             if r.chance(1, 6) {
                 let n = *r.pick(&[2usize, 3, 4, 8, 16]);
@@ -1765,10 +1855,10 @@ pub fn run(a: &Args) {
  "2 input alphabet": "CLOSED: keys from a structured alphabet (tags empty/non-empty/nested/unbalanced, families, punctuation, CR LF, glob metacharacters, high bytes, non-UTF-8 on byte paths, empty, 300-byte); values: empty, binary / non-UTF-8, integers at i64 limits, 1 MiB; glob patterns of every shape; CLOSED (session 3): class m7 — all five value types, expiry commands and multi-call scripts as timed streams against the sharding model instantiated with the M7 reference executor (Props/C03M7.lean); OPEN: on the byte paths (fast/pooled/batch) values are strings by construction",
  "3 comparisons at equality": "CLOSED: deadline just before / at / just past / far (every read path); DEL with 1 vs ≥ 2 keys (fan-out threshold); MSET on one vs several shards; SCAN count vs matches; shard counts at the clamp bounds (0, 1, 256, 1000)",
  "4 configuration": "CLOSED: shard counts 0,1,2,3,5,7,64,256,1000 (clamping, non-powers of two), adaptive features on, PerformanceConfig through validate() with response-pool capacity 0/1/2/256 and prewarm 0..capacity+1; OPEN: buffers / batching / connection_pool fields are connection-level (C04)",
- "5 capacity thresholds": "CLOSED: response pool crossed (capacity 1, > capacity outstanding), 2000-key keyspaces on 16/64 shards, batches of 500 pairs; OPEN: none known at this layer (mailboxes are unbounded)",
+ "5 capacity thresholds": "CLOSED: (round 2) batches of 2..257 pairs over 1..8 REPEATED keys through fast_batch_set/get_pipeline (class batch-order: lengths around 20/21, 32/33, 64/65 — the small-size cut-offs of sorting / grouping routines; send order inside one shard group) and through the connection batch collectors (srvc-fast: runs below / at / above batch_threshold, longer than 20, at the head of a read); response pool crossed (capacity 1, > capacity outstanding), 2000-key keyspaces on 16/64 shards, batches of 500 pairs; OPEN: none known at this layer (mailboxes are unbounded)",
  "6 fault kinds": "N/A at this layer (no I/O); task cancellation is C02's (abandon)",
  "7 history shapes": "CLOSED: per-command after-deadline corpus (57 commands of every value type x before/at/after/far, only other shards see traffic while the deadline passes; self-tested: collection lookups skipping set_time), expiry passing between steps on every path, clock standing still / going backwards / jumping 2^44 ms (correspondence only: the 1-vs-N claim is for monotone time), type changes on a key, FLUSH in the middle, scripts introduced via one shard and used via another; OPEN: restart / reload does not exist at this layer",
- "8 node-global state": "CLOSED: routing state immutable at run time (source-derived: plain fields, no &mut self, no assignment, no consumer of ScalingDecision; rebalance probe); script cache in the model (script_cache_global_refines); CONFIG, CLIENT name, SCRIPT FLUSH, DBSIZE/FLUSHALL fan-out probed 1 vs 4 shards; OPEN: INFO (process-dependent fields not compared), ACL stubs",
+ "8 node-global state": "CLOSED (round 2): the script cache used by EVERY shard (EVALSHA and EVAL) before a SCRIPT FLUSH and again after it, fixed session + random streams; routing state immutable at run time (source-derived: plain fields, no &mut self, no assignment, no consumer of ScalingDecision; rebalance probe); script cache in the model (script_cache_global_refines); CONFIG, CLIENT name, SCRIPT FLUSH, DBSIZE/FLUSHALL fan-out probed 1 vs 4 shards; OPEN: INFO (process-dependent fields not compared), ACL stubs",
  "9 observations": "CLOSED: replies, aggregate dump through generic AND byte paths, KEYS as multiset, what exists after the clock passes deadlines (DBSIZE/EXISTS/GET through every path), EVICT tick count (model, not 1-vs-N: legitimately shard-count dependent); OPEN: TTL/PTTL values are C01's; panics of a shard actor surface as 'ERR shard response failed' replies (seen as disagreements), not caught separately",
  "10 finding absorption": "CLOSED: listed findings attributed by cause + model prediction (resolve); new finding C03:script-undeclared-key added by cause",
  "11 harness fragility": "CLOSED: routing probe no longer relies on RENAME; predictor unavailability reported; session 4: the model driver hung on seed 4 (exponential RedisX.classScan on a 300-byte pattern with an unclosed class) — the small executor now evaluates the same matcher with every recursive call bound once (globB_eq); seeds 1..6 exit 0; OPEN: a panic inside the harness' own tasks aborts the run (reported by check as harness exit)",
